@@ -32,6 +32,32 @@ def _checksum_cmp(fn, owner, field):
     return out
 
 
+def _verifying_callee(F, fn, owner, field, sink_bb):
+    """a call in fn to a local helper that (i) compares one of its parameters with a hash-derived value, (ii) returns Ok only on
+    the equal edge, (iii) receives <owner>.<field> for that parameter, and (iv) whose success dominates sink_bb. This is the
+    `read + verify` block of a loader extracted into a function: the helper's success *is* the checksum-equal edge."""
+    for c in fn.calls():
+        h = F.fns.get(c.local_callee) if c.local_callee else None
+        if h is None or not lib.call_success_dominates(fn, c, sink_bb):
+            continue
+        for cm in lib.comparisons(h):
+            if cm.rel not in ('==', '!='):
+                continue
+            for x, y in ((cm.sa(), cm.sb()), (cm.sb(), cm.sa())):
+                hashed = any(cc.name in ('hash', 'finalize') or 'blake3' in (cc.callee or '') for cc in y.calls)
+                params = {a for a in x.args if 1 <= a <= len(c.args)}
+                if not hashed or not params or any(cc.name in ('hash', 'finalize') for cc in x.calls):
+                    continue
+                eq_edges = [t for t, rel in cm.edges() if rel == '==']
+                exits = [ex for ex in h.ok_exits() if ex['kind'] in ('ok', 'call')]
+                if not exits or not all(any(lib.edge_dominates(h, cm.bb, t, ex['bb']) for t in eq_edges) for ex in exits):
+                    continue
+                for a in params:
+                    if lib.slice_back(fn, [c.args[a - 1]], through_calls=True, at=(c.bb, None)).has_field(owner, field):
+                        return c, h
+    return None
+
+
 def wal_record_cover(ctx, F):
     ctx.rule('COVER-C20c', 'the WAL record digest depends on every header field scan_records acts on (sequence, length)')
     wr = ctx.need('COVER-C20c', 'EmbeddedWal::write_record')
@@ -224,6 +250,10 @@ def run(ctx):
         ctx.evaluations += 1
         if cm and des and any(lib.edge_dominates(fn, cm[0].bb, t, des[0].bb) for t, rel in cm[0].edges() if rel == '=='):
             ctx.ok('MPT-C20b', fn, 'deserialises only past blake3(buf) == manifest.checksum', line=cm[0].line)
+        elif des and _verifying_callee(F, fn, owner, 'checksum', des[0].bb):
+            vc, h = _verifying_callee(F, fn, owner, 'checksum', des[0].bb)
+            ctx.touch(h, len(h.blocks))
+            ctx.ok('MPT-C20b', fn, 'deserialises only after %s succeeded, which returns Ok only on the edge blake3(buf) == the manifest checksum passed to it' % h.name, line=vc.line)
         else:
             ctx.bad('MPT-C20b', fn, 'track bytes are deserialised without the checksum-equal edge', detail='track-checksum')
     # ---- info table
